@@ -13,6 +13,7 @@ import (
 	dproto "github.com/cloudwego/dynamicgo/proto"
 	pgen "github.com/cloudwego/dynamicgo/proto/generic"
 	rwire "google.golang.org/protobuf/encoding/protowire"
+	gproto "google.golang.org/protobuf/proto"
 	"google.golang.org/protobuf/reflect/protoreflect"
 	"google.golang.org/protobuf/types/dynamicpb"
 )
@@ -537,6 +538,117 @@ func (c *c10) randMany(r *rand.Rand, cur PVal) (PEditOp, bool) {
 	return op, len(op.Many) > 0
 }
 
+// ---- directed histories: make the length prefix of some ancestor cross 127/128 (or 16383/16384) ----
+
+type leafCand struct {
+	items []PItem
+	kind  string // string | bytes
+	cur   int    // current content length
+	anc   []int  // byte lengths of the enclosing length-prefixed items (messages, map pairs), outermost first
+}
+
+func pairLen(parent protoreflect.MessageDescriptor, fd protoreflect.FieldDescriptor, k protoreflect.MapKey, v protoreflect.Value) int {
+	tmp := dynamicpb.NewMessage(parent)
+	tmp.Mutable(fd).Map().Set(k, v)
+	b := refMarshal(tmp)
+	_, n := rwire.ConsumeVarint(b)
+	l, _ := rwire.ConsumeVarint(b[n:])
+	return int(l)
+}
+
+func keyItemOf(k protoreflect.MapKey, kind protoreflect.Kind) PItem {
+	if kind == protoreflect.StringKind {
+		return PItem{K: "str", B: B(k.String())}
+	}
+	switch kind {
+	case protoreflect.Uint32Kind, protoreflect.Uint64Kind, protoreflect.Fixed32Kind, protoreflect.Fixed64Kind:
+		return PItem{K: "int", B: be8(int64(k.Uint()))}
+	}
+	return PItem{K: "int", B: be8(k.Int())}
+}
+
+func collectLeaves(m protoreflect.Message, items []PItem, anc []int, depth int, out *[]leafCand) {
+	if depth > 6 {
+		return
+	}
+	md := m.Descriptor()
+	m.Range(func(fd protoreflect.FieldDescriptor, v protoreflect.Value) bool {
+		base := cat(items, PItem{K: "id", N: int(fd.Number()), B: B{}})
+		isLeaf := func(k protoreflect.Kind) bool { return k == protoreflect.StringKind || k == protoreflect.BytesKind }
+		leafLen := func(k protoreflect.Kind, x protoreflect.Value) int {
+			if k == protoreflect.StringKind {
+				return len(x.String())
+			}
+			return len(x.Bytes())
+		}
+		switch {
+		case fd.IsMap():
+			if fd.MapKey().Kind() == protoreflect.BoolKind {
+				return true
+			}
+			v.Map().Range(func(k protoreflect.MapKey, mv protoreflect.Value) bool {
+				it := cat(base, keyItemOf(k, fd.MapKey().Kind()))
+				pl := pairLen(md, fd, k, mv)
+				if fd.MapValue().Kind() == protoreflect.MessageKind {
+					collectLeaves(mv.Message(), it, append(append([]int{}, anc...), pl, gproto.Size(mv.Message().Interface())), depth+1, out)
+				} else if isLeaf(fd.MapValue().Kind()) {
+					*out = append(*out, leafCand{items: it, kind: kindName(fd.MapValue().Kind()), cur: leafLen(fd.MapValue().Kind(), mv), anc: append(append([]int{}, anc...), pl)})
+				}
+				return true
+			})
+		case fd.IsList():
+			for i := 0; i < v.List().Len(); i++ {
+				it := cat(base, PItem{K: "idx", N: i, B: B{}})
+				if fd.Kind() == protoreflect.MessageKind {
+					collectLeaves(v.List().Get(i).Message(), it, append(append([]int{}, anc...), gproto.Size(v.List().Get(i).Message().Interface())), depth+1, out)
+				} else if isLeaf(fd.Kind()) && len(anc) > 0 {
+					*out = append(*out, leafCand{items: it, kind: kindName(fd.Kind()), cur: leafLen(fd.Kind(), v.List().Get(i)), anc: anc})
+				}
+			}
+		case fd.Kind() == protoreflect.MessageKind:
+			collectLeaves(v.Message(), base, append(append([]int{}, anc...), gproto.Size(v.Message().Interface())), depth+1, out)
+		case isLeaf(fd.Kind()) && len(anc) > 0:
+			*out = append(*out, leafCand{items: base, kind: kindName(fd.Kind()), cur: leafLen(fd.Kind(), v), anc: anc})
+		}
+		return true
+	})
+}
+
+// boundaryOps: set one nested string/bytes leaf to lengths that put an ancestor's length at 127, 128, 129 (or around 16384) and back
+func boundaryOps(r *rand.Rand, m protoreflect.Message) []PEditOp {
+	var cands []leafCand
+	collectLeaves(m, nil, nil, 0, &cands)
+	if len(cands) == 0 {
+		return nil
+	}
+	c := cands[r.Intn(len(cands))]
+	mk := func(n int) PEditOp {
+		if n < 1 {
+			n = 1
+		}
+		b := make(B, n)
+		for i := range b {
+			b[i] = byte('a' + i%26)
+		}
+		return PEditOp{Op: "Set", Path: c.items, Sub: PVal{K: c.kind, B: b, F: []PEntry{}}}
+	}
+	var ops []PEditOp
+	// every enclosing item in turn (innermost first, at most four): aim its length at the boundary, step across, come back
+	for k := len(c.anc) - 1; k >= 0 && k >= len(c.anc)-4; k-- {
+		a := c.anc[k]
+		bound := 128
+		if a > 1000 {
+			bound = 16384
+		}
+		t := c.cur + (bound - a)
+		for _, d := range []int{-1, 0, 1} {
+			ops = append(ops, mk(t+d))
+		}
+		ops = append(ops, mk(c.cur))
+	}
+	return ops
+}
+
 func isZeroScalar(v PVal) bool {
 	if v.K == "string" || v.K == "bytes" {
 		return len(v.B) == 0
@@ -559,6 +671,15 @@ func (c *c10) genRandom(seed int64, base, n int) {
 		m := randMsgPB(r, c.env.rroot, 0, pbGenCfg{maxStr: 300})
 		doc := refMarshal(m)
 		pc := PEditCase{B: doc}
+		if i%4 == 3 {
+			// directed history across a length-prefix width boundary
+			if ops := boundaryOps(r, m.ProtoReflect()); ops != nil {
+				pc.Ops = ops
+				c.out.Begin(base+i, PEditCase{Schema: &c.env.schema, B: pc.B, Ops: pc.Ops})
+				c.run(pc)
+				continue
+			}
+		}
 		// adaptive: run the prefix on a scratch value to learn the current message
 		cur := dumpMsg(m)
 		steps := 1 + r.Intn(5)
